@@ -52,7 +52,7 @@ def groups(tier, seed):
     for n in dims:
         for spec in ("spd1", "spd100", "wide"):
             gs.append({"name": "ws-n%d-%s" % (n, spec), "kind": "ws", "n": n, "spec": spec})
-    for spec in ("spd100", "wide"):
+    for spec in ("spd100", "wide", "quartic"):
         gs.append({"name": "scaled-%s" % spec, "kind": "scaled", "n": 3, "spec": spec})
     for drv in ("al", "bcs", "spg", "nes"):
         for spec in (("spd100", "quartic") if tier == "quick" else ("spd100", "quartic", "wide")):
@@ -197,6 +197,7 @@ def _run_scaled(g, tier, seed, rec):
     import jax.numpy as jnp
     from scipy.sparse import csc_matrix
     from optimism import Objective, EquationSolver as ES
+    from optimism import WarmStart as WS
     from mc.runner import exception_key
     n = g["n"]
     d = _data(n, g["spec"], seed)
@@ -215,10 +216,21 @@ def _run_scaled(g, tier, seed, rec):
                 ps = Objective.PrecondStrategy(lambda x, p: csc_matrix(onp.array(d["A"]) + onp.diag(onp.array(p[2]))
                                                                       + 3 * d["c4"] * onp.diag(onp.array(x) ** 2)))
                 settings = ES.get_settings(tol=1e-10)
+                captured = []
+                _orig_ws = WS.warm_start_increment
+
+                def _spy(objective, xarg, pN, index=0):
+                    dxb = _orig_ws(objective, xarg, pN, index)
+                    captured.append((onp.array(xarg, dtype=float), onp.array(dxb, dtype=float)))
+                    return dxb
                 try:
                     with contextlib.redirect_stdout(io.StringIO()), horizon(HORIZON_S):
                         sobj = Objective.ScaledObjective(f, jnp.array(x0), pold, precondStrategy=ps)
-                        x, ok = ES.nonlinear_equation_solve(sobj, jnp.array(x0), pnew, settings, useWarmStart=ws)
+                        WS.warm_start_increment = _spy      # observation only: records the argument and the result
+                        try:
+                            x, ok = ES.nonlinear_equation_solve(sobj, jnp.array(x0), pnew, settings, useWarmStart=ws)
+                        finally:
+                            WS.warm_start_increment = _orig_ws
                         pobj = Objective.Objective(f, jnp.array(x0), pold, precondStrategy=ps)
                         xp, okp = ES.nonlinear_equation_solve(pobj, jnp.array(x0), pnew, settings, useWarmStart=ws)
                 except HorizonExceeded:
@@ -243,6 +255,22 @@ def _run_scaled(g, tier, seed, rec):
                 bound = 10 * 1e-10 * float(onp.max(S)) / float(w[0])
                 err = float(onp.linalg.norm(x - xs))
                 rec.track_max("scaled_solution_error_over_bound", err / bound)
+                # the warm start inside the scaled solve must be the linear predictor AT THE START POINT, expressed in the
+                # scaled variables: Hbar dxbar = bbar with Hbar = S^-1 H(x0) S^-1, bbar = S^-1 (g(x0;p_old) - g(x0;p_new))
+                if ws:
+                    if len(captured) != 1:
+                        sigs.append(("warm-start-not-called-exactly-once", {"calls": len(captured)}))
+                    else:
+                        xarg, dxb = captured[0]
+                        Hs = _ref_hess(x0, p2, d) / onp.outer(S, S)
+                        bs = (_ref_grad(x0, 0.5 * p0, p2, d) - _ref_grad(x0, p0, p2, d)) / S
+                        resid = float(onp.linalg.norm(Hs @ dxb - bs))
+                        bn = float(onp.linalg.norm(bs))
+                        rec.track_max("scaled_warm_start_residual_over_rtol_b", resid / (1e-5 * bn) if bn > 0 else 0.0)
+                        if not resid <= 1.05e-5 * bn + 1e-13:
+                            sigs.append(("scaled-warm-start-not-the-linear-predictor-at-the-start-point",
+                                         {"dxbar": dxb, "x_argument": xarg, "expected_x_argument": S * x0,
+                                          "residual": resid, "b_norm": bn}))
                 if not ok:
                     sigs.append(("scaled-solve-failed-on-spd-problem", {}))
                 elif not err <= bound:
